@@ -107,11 +107,17 @@ def observe_manifests(store, ghost, md):
     for path, e, _m in files:
         paths.append(path)
         origin = (e.get("snapshot_id"), e.get("file_sequence_number") if e.get("file_sequence_number") is not None else e.get("sequence_number"))
-        if path not in ghost.file_origin:
-            ghost.file_origin[path] = origin
+        known = ghost.file_origin.setdefault(path, set())
+        if not isinstance(known, set):
+            known = ghost.file_origin[path] = {known}
+        if origin in known:
+            continue
+        if not known:
+            known.add(origin)
             if e.get("status") != 1:
                 bad.append(f"first appearance of {path} is not status ADDED")
+        elif e.get("status") == 1 and origin[0] == cur:
+            known.add(origin)       # the same file queued AGAIN (file-level API) by the snapshot being observed: a second listing with its own origin
         else:
-            if ghost.file_origin[path] != origin:
-                bad.append(f"{path} changed origin {ghost.file_origin[path]} -> {origin} after a manifest rewrite")
+            bad.append(f"{path} changed origin {sorted(known, key=repr)} -> {origin} after a manifest rewrite")
     return bad, paths
